@@ -568,6 +568,20 @@ func checkC02(r *Run) {
 		okMark = okMark && nFail > 0
 		r.check(okMark, "r6", "consume records an overrun", cf.Decl.Pos(), "!has(n) → markOverrun", "a failed consume does not mark the buffer as overrun")
 	}
+	// every read primitive of the buffer records an overrun when the bytes are not there
+	// (the path summaries of primsem.go: a summary is only produced for a primitive that
+	// marks the overrun on its short-input paths and returns the zero value there)
+	nPrim := 0
+	for _, fi := range r.L.funcsOfPkg("p9") {
+		if fi.Decl.Recv == nil || fi.Decl.Body == nil || !strings.HasPrefix(fi.Decl.Name.Name, "Read") || !x.isBufMethod(fi.Obj) {
+			continue
+		}
+		nPrim++
+		_, perr := x.readPrim(fi.Obj)
+		r.check(perr == nil, "r6", "buffer."+fi.Decl.Name.Name+" records an overrun on short input", fi.Decl.Pos(), "every path on which the bytes are missing marks the overrun and yields the zero value",
+			fmt.Sprintf("%v: a frame that is too short for its message would be accepted with made-up field values", perr))
+	}
+	r.floor("r6", "read primitives of the buffer", nPrim, 8)
 	okChk := false
 	// the buffer the message is decoded from: the argument of m.decode(&X)
 	decBuf := ""
@@ -584,7 +598,7 @@ func checkC02(r *Run) {
 	r.check(okChk, "r6", "recv delivers a message only if the decoder did not overrun", recv.Decl.Pos(), "isOverrun() false on the success exit", "the success exit of recv is not guarded by dataBuf.isOverrun(): a message decoded from a too-short body (zero-filled fields) would be delivered")
 
 	// ---- thorough: compiler cross-reference ----
-	if r.Tier == "thorough" && r.Config == "linux/amd64" {
+	if r.Tier == "thorough" && r.Config == "linux/amd64" && r.borrowed == nil {
 		c02CompilerCrossRef(r, sliceFuncs, discharged)
 	}
 	r.note("decoded values are bounded by the u16 list/string counts (a 65535-element list of empty names needs no bytes beyond its count): memory of decoded values is independent of msize and not covered by the msize clause")
